@@ -315,6 +315,7 @@ static uint64_t own_work(uint64_t nn, uint64_t seed) {
   S.cfft = new_cplx_fft_precomp(nn / 2, 0);
   S.ppol = new_svp_ppol(S.fft);
   S.pmat = new_vmp_pmat(S.fft, 2, 3);
+  if (nn >= 8) make_more(S);   // every table family constructed concurrently too (incl. the q120 product precomputations)
   std::vector<int64_t> pol(nn), mat(6 * nn);
   for (auto& x : pol) x = r.sbits(10);
   for (auto& x : mat) x = r.sbits(10);
@@ -327,6 +328,7 @@ static uint64_t own_work(uint64_t nn, uint64_t seed) {
   free(S.rfft); free(S.rifft); free(S.cfft);
   delete_svp_ppol(S.ppol);
   delete_vmp_pmat(S.pmat);
+  free_more(S);
   return h;
 }
 static void* own_main(void* p) {
@@ -361,14 +363,15 @@ static void mt_construct(Out& out, Rng& rng, uint64_t nn, int nthreads) {
 }
 
 STREAM(mt_module) {
-  // first case: fresh process, module-level API only, first uses concurrent
+  // very first: every constructor runs for the first time in this process on 16 threads at once
+  mt_construct(out, rng, 64, 16);
+  // fresh objects, module-level API only, first uses concurrent
   mt_case(out, rng, 64, 16, thorough ? 40 : 6, 0, 0);
   mt_case(out, rng, 16, 16, thorough ? 40 : 6, 0, 1);
   mt_case(out, rng, 256, 8, thorough ? 20 : 3, 0, 0);
   mt_case(out, rng, 4096, 8, 1, 0, 0);  // large tables: anything built lazily on first use shows here
   // objects created concurrently (one set per thread)
   mt_construct(out, rng, 2048, 8);
-  mt_construct(out, rng, 64, 16);
   // then the convenience API after its documented warm-up
   mt_case(out, rng, 64, 16, thorough ? 40 : 6, 1, 0);
   mt_case(out, rng, 32, 8, thorough ? 20 : 4, 1, 1);
